@@ -393,6 +393,8 @@ theorem C10_compile_sizes_stmt (pc : Nat) (lc : Option LoopCtx) (tn : List Bool)
   | .loop _ _ b => by
     simp [compS, sizeS, C10_compile_sizes _ _ [] b]; omega
   | .brk | .cont => by simp [compS, sizeS, leaveTries_length]
+  | .cond _ _ b => by
+    simp [compS, sizeS, C10_compile_sizes _ lc tn b]; omega
 theorem C10_compile_sizes (pc : Nat) (lc : Option LoopCtx) (tn : List Bool) : (b : List Stmt) → (compB pc lc tn b).length = sizeB tn b
   | [] => by simp [compB, sizeB]
   | s :: r => by simp [compB, sizeB, C10_compile_sizes_stmt pc lc tn s, C10_compile_sizes _ lc tn r]
